@@ -500,6 +500,18 @@ type ValOpts struct {
 	DynDepth  int    // max nesting of dynamic values
 	DynScalar []Kind // leaf kinds allowed inside generated dynamic values
 	DynOpts   *GenOpts
+	LongStr   *int // if set and positive: remaining number of long (4 KiB .. 70 KiB) strings / raw buffers this value may hold
+}
+
+// longLens are string / buffer lengths around the sizes at which implementations change strategy.
+var longLens = []int{4095, 4096, 4097, 5000, 8191, 8192, 8193, 10000, 16384, 65535, 65536, 65537, 70000}
+
+func (o ValOpts) long(rng *rand.Rand) int {
+	if o.LongStr == nil || *o.LongStr <= 0 || rng.Intn(6) != 0 {
+		return -1
+	}
+	*o.LongStr--
+	return longLens[rng.Intn(len(longLens))]
 }
 
 var edgeI64 = []int64{0, 1, -1, math.MaxInt8, math.MinInt8, math.MaxInt16, math.MinInt16, math.MaxInt32, math.MinInt32, math.MaxInt64, math.MinInt64, 255, 256, 65535, 65536, 0x42dead42}
@@ -620,9 +632,19 @@ func genValue(rng *rand.Rand, t *Type, o ValOpts) interface{} {
 			return rng.NormFloat64() * 1e6
 		}
 	case String:
+		if n := o.long(rng); n >= 0 {
+			b := make([]byte, n)
+			for i := range b {
+				b[i] = byte(' ' + rng.Intn(95))
+			}
+			return string(b)
+		}
 		return GenString(rng, o.MaxStr)
 	case Raw:
-		n := rng.Intn(o.MaxStr + 1)
+		n := o.long(rng)
+		if n < 0 {
+			n = rng.Intn(o.MaxStr + 1)
+		}
 		b := make([]byte, n)
 		rng.Read(b)
 		return b
